@@ -22,8 +22,8 @@ from . import common as C
 
 PID = "C07"
 RULE = ("one case = backend (every class in storage_registry) x geometry (full rank 1-3, sizes 1-3, every external/internal "
-        "mask with at least one external axis) x history of <=12 ops: dump with int/negative/slice keys of external rank, "
-        "__getitem__ with int/negative/slice keys of full rank, to_array(splat_internal None/True/False), mask, "
+        "mask, also the one without any external axis) x history of <=12 ops: dump with int/negative/slice keys of external rank, "
+        "__getitem__ with int/negative/slice keys of full rank (also bare, un-tupled keys), custom filename_template for FileArray,  to_array(splat_internal None/True/False), mask, "
         "mask_linear, has_index/get_from_index over all linear indices, out-of-range and wrong-rank keys, persist, reopen "
         "(new instance on the same folder; for dict backends only the last persisted snapshot survives; optionally after "
         "a simulated process exit that kills manager processes), worker handle (pickled copy dumps; visible to the parent "
